@@ -22,6 +22,8 @@ var atoms = []string{
 	`start = AA BB ;`, `q = BB AA | BB ;`,
 	// a string literal spelled like a token name: two different terminals (the literal defines itself)
 	`q = "AA" ;`, `start = AA "AA" ;`,
+	// patterns with a blank at an edge, an escaped slash, a literal with escapes: the value is the text as written
+	`AA = / x/`, `BB = /x /`, `BB = /a\/b /`, `AA = "\"x\\"`,
 }
 
 // The predefined patterns as the harness reads them (anchor: ebnf/parser Predefs): name -> pattern.
